@@ -8,6 +8,7 @@ pub mod c05;
 pub mod cluster;
 pub mod conc;
 pub mod c06;
+pub mod c07;
 pub mod c08;
 pub mod c09;
 pub mod c10;
@@ -66,6 +67,7 @@ pub fn dispatch(run: &mut Run) -> bool {
         "C04" => c04::run(run),
         "C05" => c05::run(run),
         "C06" => c06::run(run),
+        "C07" => c07::run(run),
         "C08" => c08::run(run),
         "C09" => c09::run(run),
         "C10" => c10::run(run),
